@@ -184,9 +184,10 @@ class LogicalType(type):  # noqa
         args = []
         resolved = False
         for i, arg in enumerate(cls.args):
-            arg, resolved = resolve_forward_type(arg)
-            if resolved:
+            arg, arg_resolved = resolve_forward_type(arg)
+            if arg_resolved:
                 arg = cls._parse_arg(arg)
+                resolved = True
             args.append(arg)
         if resolved:
             # only adjust args if resolved
